@@ -857,6 +857,9 @@ def param_roots(v, _memo=None, _depth=0):
             out |= param_roots(z.kids[v.d["idx"]], _memo, _depth + 1)
         else:
             out |= param_roots(v.kids[0], _memo, _depth + 1)
+    elif v.kind == "index" and v.kids:
+        # an element of a sequence comes from the sequence; the position is not where it comes from
+        out |= param_roots(v.kids[0], _memo, _depth + 1)
     else:
         for x in v.kids:
             out |= param_roots(x, _memo, _depth + 1)
